@@ -205,5 +205,5 @@ func genC13(t *rapid.T) c13Case {
 func init() { register("C13", checkC13) }
 
 func TestC13(t *testing.T) {
-	runProp(t, "C13", checkC13, nil, part[c13Case]{"histories", scale(150, 1200), genC13})
+	runProp(t, "C13", checkC13, nil, part[c13Case]{"histories", scale(400, 1200), genC13})
 }
